@@ -133,6 +133,11 @@ def table(shape, nrows, fail=None):
         cols["q"] = [1.0, 3.0, 0.5, 2.0, 4.0, 1.5][:nrows]
         if shape == "iapar-both":
             cols["x"] = list(xs)
+    if shape == "par-dup":  # the same value in several rows (two grids glued at a shared point, a discrete sample)
+        cols["k2"] = [0.5, 1.0, 0.5, 2.0, 1.0, 0.5][:nrows]
+    if shape == "both-dup":
+        cols["k2"] = [0.5, 1.0, 0.5, 2.0, 1.0, 0.5][:nrows]
+        cols["x"] = [0.25, 2.0, 0.25, 3.0, 2.0, 0.25][:nrows]
     if shape == "par-int":  # whole numbers stored as integers (a table read from a file, range(...), ...)
         cols["k2"] = [1, 2, 3, 4, 5, 6][:nrows]
     if shape == "both-int":
@@ -286,6 +291,29 @@ def compare_rows(sc, kind, model_kind, df, read_order, view_first, txt, nt, expe
             bad = _frames_equal(g, ref[name], f"row {pos} (label {label!r}) {name}")
             if bad:
                 return outcome(False, "differs", symptom=f"row-differs:{name}", nontrivial=nt, detail=f"{bad} | {txt}")
+    # the container's combined tables: one block per row of the scan table, in the table's order, holding that row's values
+    for name in ("variables", "fluxes"):
+        if not hasattr(type(sc), name):
+            continue
+        try:
+            agg = getattr(sc, name)
+        except Exception as exc:  # noqa: BLE001
+            return outcome(False, "view-raised", symptom=f"combined-view-raised:{type(exc).__name__}", nontrivial=nt, detail=f"{name}: {type(exc).__name__}: {str(exc)[:150]} | {txt}")
+        if kind.endswith("steady_state"):
+            if len(agg) != len(labels):
+                return outcome(False, "misaligned", symptom="combined-row-count-differs", nontrivial=nt, detail=f"{name} has {len(agg)} rows for a scan table of {len(labels)} rows | {txt}")
+            blocks = [agg.iloc[[pos]] for pos in range(len(labels))]
+        else:
+            first = list(dict.fromkeys(agg.index.get_level_values(0)))
+            if first != labels:
+                return outcome(False, "misaligned", symptom="combined-row-order-differs", nontrivial=nt, detail=f"{name} lists rows {first}, scan table {labels} | {txt}")
+            blocks = [agg.loc[label] for label in labels]
+        for pos, block in enumerate(blocks):
+            g = got[(pos, name)]
+            a, b = block.to_numpy(dtype=float), g.to_numpy(dtype=float)
+            if list(block.columns) != list(g.columns) or a.shape != b.shape or not bool(np.array_equal(a, b, equal_nan=True)):
+                return outcome(False, "differs", symptom=f"combined-row-differs:{name}", nontrivial=nt,
+                               detail=f"row {pos} of the combined {name} is {a.tolist()[:2]}, that row's own result {b.tolist()[:2]} | {txt}")
     return None
 
 
@@ -476,6 +504,9 @@ def generate(tier):
         cases.append({"family": "seq", "model": model, "table": tbl, "kind": kind, "rows": 3, "read": [2, 0, 1], "view_first": "fluxes", "labels": ["c", "a", "b"]})
     for tbl, kind, warm in it.product(("iapar", "iapar-both"), seq_kinds + mc_kinds_early, (False, True)):
         cases.append({"family": "seq", "model": "ia", "table": tbl, "kind": kind, "rows": 3, "read": [2, 0, 1], "view_first": "variables", "warm": warm})
+    # scan tables in which a row occurs more than once
+    for tbl, kind, rows in it.product(("par-dup", "both-dup"), seq_kinds + mc_kinds_early, (3, 5)):
+        cases.append({"family": "seq", "model": "cons", "table": tbl, "kind": kind, "rows": rows, "read": list(range(rows - 1, -1, -1)), "view_first": "variables"})
     # a model that was already evaluated / simulated before it is scanned
     for model, tbl, kind in it.product(("ia", "cons", "derived"), ("par", "init", "both"), seq_kinds + mc_kinds_early):
         cases.append({"family": "seq", "model": model, "table": tbl, "kind": kind, "rows": 2, "read": [1, 0], "view_first": "fluxes", "warm": True})
